@@ -10,12 +10,14 @@ MID2 = "1.100000002"
 LIABS = [2.0, 10.0, 37.5, 200.0]
 
 
-def _af(c, name, kinds=("none", "zero", "sym")):
+def _af(c, name, kinds=("none", "zero", "just-under-threshold", "sym")):
     k = c.choose(name + "_kind", list(kinds))
     if k == "none":
         return None, k
     if k == "zero":
         return 0, k
+    if k == "just-under-threshold":
+        return 2.4, k  # (a concrete factor below the 2.5 threshold: the comparison is decided without the solver)
     return c.cents(name, 1, 9900), k  # every 2dp factor in (0, 99]
 
 
@@ -37,7 +39,7 @@ def _frag_obligations(c, tag, before, after, f, applies):
 
 
 def _applies(c, f, kind):
-    if kind in ("none", "zero"):
+    if kind in ("none", "zero", "just-under-threshold"):
         return False
     return f >= 2.5
 
@@ -58,7 +60,7 @@ def h09a(c, max_frags=1):
         mw = fl._market_middleware[0]
         b_kind = c.choose("b_kind", ["LIMIT", "MOC-LAY", "MOC-LAY-matched", "MOC-BACK", "MOC-BACK-matched"])
         c.tag("b_kind", b_kind)
-        mtype = c.choose("market_type", ["WIN", "PLACE", "OTHER_PLACE", "EACH_WAY"] if b_kind.startswith("MOC-LAY") else ["WIN", "EACH_WAY"])
+        mtype = c.choose("market_type", ["WIN", "PLACE", "OTHER_PLACE", "EACH_WAY"] if (b_kind.startswith("MOC-LAY") or b_kind == "LIMIT") else ["WIN", "EACH_WAY"])
         md = cm.market_definition(market_type=mtype)
         bk1 = cm.book([cm.runner(1), cm.runner(2), cm.runner(3)], version=7, md=md)
         market = cm.add_market(fl, bk1)
@@ -180,7 +182,7 @@ def h09a(c, max_frags=1):
                     mult = (100 - ff) / 100
                 else:
                     mult = 1
-                scaled = fk == "sym" and mtype in ("WIN", "PLACE", "OTHER_PLACE")
+                scaled = fk in ("sym", "just-under-threshold") and mtype in ("WIN", "PLACE", "OTHER_PLACE")
                 c.ob("%s.moc-lay-liability-scaled" % tag, c.close(B.order_type.liability, liab * mult, 1e-9))
                 c.observe("liability", B.order_type.liability)
                 c.cover("moc-lay")
